@@ -227,6 +227,7 @@ Local(n, anc, idx, root) ==
       ks == AncKinds(anc)
       cn == CloseKinds(anc)
       accLoopAnc == {i \in DOMAIN anc : anc[i].k = "acc_loop"}
+      hasAccRoutine == \E i \in DOMAIN root.body : root.body[i].k = "acc_routine"
   IN
   \* ---- OpenMP
      (IF k = "omp_do" /\ "omp_parallel" \notin ks                                  \* [P]
@@ -239,6 +240,9 @@ Local(n, anc, idx, root) ==
   \cup (LET bad == cn \cap {"omp_do", "omp_single", "omp_taskloop", "omp_loop"}
       IN IF k = "omp_master" /\ bad # {}                                           \* [OMP 2.20]
          THEN V("OmpMasterCloselyNested", n, Pick(bad)) ELSE {})
+  \* Fortran syntax of OpenMP 5.0: nowait belongs on `end single` (5.2 lifts this)
+  \cup (IF k = "omp_single" /\ HasCl(n, "nowait")                                  \* [OMP 2.8.2]
+      THEN V("OmpSingleNowaitOnBegin", n, "") ELSE {})
   \cup (IF k \in {"omp_single", "omp_master"} /\ "omp_parallel" \notin ks          \* [D]
       THEN V("OmpSerialOutsideParallel", n, "") ELSE {})
   \cup (IF k = "omp_taskloop" /\ ks \cap {"omp_single", "omp_master"} = {}         \* [D]
@@ -262,10 +266,17 @@ Local(n, anc, idx, root) ==
       THEN V("OmpInsideAcc", n, Pick(ks \cap AccRegion)) ELSE {})
   \cup (IF k \in AccKinds /\ ks \cap OmpKinds # {}
       THEN V("AccInsideOmp", n, Pick(ks \cap OmpKinds)) ELSE {})
+  \cup (IF k \in OmpKinds /\ hasAccRoutine /\ ks \cap AccRegion = {}              \* [ACC 2.15]
+      THEN V("OmpInsideAccRoutine", n, "acc_routine") ELSE {})
   \* ---- OpenACC
   \cup (IF k = "acc_loop" /\ ks \cap AccCompute = {}                               \* [P]
-         /\ ~(\E i \in DOMAIN root.body : root.body[i].k = "acc_routine")
+         /\ ~hasAccRoutine
       THEN V("AccLoopOutsideCompute", n, "") ELSE {})
+  \* `acc routine` is written without a level-of-parallelism clause (= seq):
+  \* an orphaned gang/vector loop is not allowed in it                      [ACC 2.15.1]
+  \cup (IF k = "acc_loop" /\ ks \cap AccCompute = {} /\ hasAccRoutine
+         /\ (HasCl(n, "gang") \/ HasCl(n, "vector"))
+      THEN V("AccLoopParallelismInSeqRoutine", n, "acc_routine") ELSE {})
   \cup (IF k \in AccCompute /\ ks \cap AccCompute # {}                             \* [ACC 2.5]
       THEN V("AccNestedCompute", n, Pick(ks \cap AccCompute)) ELSE {})
   \cup (IF k \in {"acc_data", "acc_enter_data"} /\ ks \cap (AccCompute \cup {"acc_loop"}) # {}
